@@ -4,7 +4,9 @@
     For ANY number of holes, any vertex counts, either stored winding and any start vertex, over the reals, under
     the two decidable side conditions
     - [closed_loop_clean false P = true]  (general position: every push of the merge appended; Model/PolyAux.v),
-    - [closed_loop_wf P = true]  (every stage of the merge attached a NEW hole at a position of the current outline;
+    - [closed_loop_wf P = true]  (every stage of the merge attached a NEW hole at a position of the current outline -- the
+      position is [attach_index] since fix bcb072e: the visit of the nearest outline vertex whose interior angle contains the
+      bridge, [C12_region_attach_index_spec] / [C12_region_in_cone_orient]; the region identities hold for ANY position;
       implied by [closed_loop_hits P = true]: every stage's nearest-pair scan found a pair at squared distance below the
       value it starts from -- Float::MAX since fix f0d596d, so over the reals it holds for every polygon with non-empty loops
       and coordinates below 2^500 ([C12_region_bounded_coords_wf]); with the former start value 9e14 it did not:
@@ -22,7 +24,7 @@
 From Coq Require Import ZArith Reals List Floats.
 From G3 Require Import Model.Num Model.NumF Model.Base Model.Vec Model.Segment Model.Loop Model.Polygon Model.Json Model.PolyAux
   Theory.RInst Theory.LoopGeom Proofs.C12_merge Proofs.C12_region.
-From G3 Require Theory.Winding Theory.Shoelace.
+From G3 Require Theory.Winding Theory.Shoelace Proofs.C05_pointtest.
 Import ListNotations.
 Set Warnings "-inexact-float".
 
@@ -181,6 +183,32 @@ Theorem C12_region_scan_cases : forall (K : Type) (NK : Num K) (hs : list (Loop 
   exists d j' k' l' h, scan_ext evs j hs processed st = (d, j', k', k', l') /\ j <= j' < j + length evs /\
     nth_error hs k' = Some h /\ l' < llen h /\ existsb (Nat.eqb k') processed = false.
 Proof. exact (fun K NK => @scan_ext_cases K NK). Qed.
+(** ** the attachment position (fix bcb072e).  It is the scan's position [me0], or a position of the outline that holds the same
+    vertex (up to Point3D::compare, 1e-5 per coordinate) -- so the bridge still joins the nearest pair -- at which the cone test
+    succeeds (only for polygons with several holes); it is a position of the outline whenever the scan's is *)
+Theorem C12_region_attach_same_vertex : forall (K : Type) (NK : Num K) (P : Poly K) (vs : list (V3 K)) (me0 : nat) (hole : Loop K) (iv me : nat),
+  attach_index false P vs me0 hole iv = Ok me -> vcompare (vnth vs me) (vnth vs me0) = true \/ me = me0.
+Proof. exact (fun K NK => @attach_same_vertex K NK). Qed.
+Theorem C12_region_attach_index_spec : forall (K : Type) (NK : Num K) (P : Poly K) (vs : list (V3 K)) (me0 : nat) (hole : Loop K) (iv me : nat),
+  attach_index false P vs me0 hole iv = Ok me ->
+  me = me0 \/
+  (me < length vs /\ me0 < length vs /\ iv < llen hole /\ 1 < length (pinner P) /\
+   vcompare (vnth vs me) (vnth vs me0) = true /\
+   in_cone (lnormal (pouter P)) (vnth vs me0) (vnth vs (Nat.modulo (me + length vs - 1) (length vs)))
+           (vnth vs (Nat.modulo (me + 1) (length vs))) (vnth (verts hole) iv) = true).
+Proof. exact (fun K NK => @attach_index_cases K NK). Qed.
+Theorem C12_region_attach_in_range : forall (K : Type) (NK : Num K) (P : Poly K) (vs : list (V3 K)) (me0 : nat) (hole : Loop K) (iv me : nat),
+  attach_index false P vs me0 hole iv = Ok me -> me0 < length vs -> me < length vs.
+Proof. exact (fun K NK => @attach_index_lt K NK). Qed.
+(** the cone test in the 2-D coordinates of the plane (n = e1 x e2, p' = plane2 o e1 e2 p): the corner (prev, e, next) is convex or
+    straight for n and the bridge direction e -> h is STRICTLY inside its interior angle (strictly left of e -> next, strictly right
+    of e -> prev), or the corner is reflex and h is not in the closed exterior angle *)
+Theorem C12_region_in_cone_orient : forall (o e1 e2 e prev next h : V3 R),
+  let O := fun a b => Winding.orient (C05_pointtest.plane2 o e1 e2 e) (C05_pointtest.plane2 o e1 e2 a) (C05_pointtest.plane2 o e1 e2 b) in
+  in_cone (vcross e1 e2) e prev next h = true <->
+  ((0 <= O next prev /\ 0 < O next h /\ 0 < O h prev) \/ (O next prev < 0 /\ ~ (0 <= O prev h /\ 0 <= O h next)))%R.
+Proof. exact in_cone_orient. Qed.
+
 (** if every stage finds a pair at squared distance below the value the scan starts from (Float::MAX) the trace is well formed *)
 Theorem C12_region_hits_wf : forall P : Poly R, closed_loop_hits P = true -> closed_loop_wf P = true.
 Proof. exact hits_wf_R. Qed.
@@ -229,7 +257,9 @@ Proof. exact far_holes_now_merged. Qed.
 
 (** ** non-vacuity (binary64): the unit square with two triangular holes, one wound like the outline, one against it.
     Both side conditions hold; the second hole is attached at position 4 of the CURRENT outline (a vertex that came
-    from the first merge); the merged outline has 4 + (3+2) + (3+2) = 14 vertices and closes to the net area *)
+    from the first merge); here the visit chosen by [attach_index] is the scan's own position at both stages
+    (entries (scan position, attachment position, hole, start)); the merged outline has 4 + (3+2) + (3+2) = 14 vertices and
+    closes to the net area *)
 Definition rg_mk (pts : list (V3 float)) : Loop float := fst (loop_run loop_new (map (fun p => LPush p) pts ++ [LClose])).
 Definition rg_square := rg_mk [mkV3 0 0 0; mkV3 1 0 0; mkV3 1 1 0; mkV3 0 1 0]%float.
 Definition rg_tri1 := rg_mk [mkV3 0.3 0.3 0; mkV3 0.6 0.3 0; mkV3 0.45 0.6 0]%float.
@@ -239,7 +269,29 @@ Example C12_region_nonvacuous :
   match rg_poly with
   | Ok P => closed_loop_clean false P = true /\ closed_loop_hits P = true /\ closed_loop_wf P = true /\
             map (fun h => vis_same_direction (lnormal (pouter P)) (lnormal h)) (pinner P) = [true; false] /\
-            option_map (map (fun s => (ms_me s, ms_ml s, ms_id s))) (closed_loop_trace P) = Some [(2, 1, 2); (4, 0, 2)] /\
+            option_map (map (fun s => (ms_me0 s, ms_me s, ms_ml s, ms_id s))) (closed_loop_trace P) = Some [(2, 2, 1, 2); (4, 4, 0, 2)] /\
+            match poly_get_closed_loop P with
+            | Ok L => llen L = 14 /\ snd (loop_close L) = Ok tt /\
+                      PrimFloat.ltb (PrimFloat.abs (larea (fst (loop_close L)) - parea P)) 1e-12 = true
+            | _ => False end
+  | _ => False
+  end.
+Proof. vm_compute. repeat split; reflexivity. Qed.
+
+(** ... and a polygon on which the chosen visit DIFFERS from the scan's position (binary64): square of side 10, two small
+    triangular holes both nearest to the corner (0,0), hole 0 in direction ~80 degrees at distance 2, hole 1 in direction ~10 degrees
+    at distance 2.4.  Stage 1 attaches hole 0 at position 0; the outline is then (0,0) h h h h (0,0) (10,0) (10,10) (0,10) and visits
+    (0,0) at positions 0 and 5.  Stage 2: the scan returns position 0, whose interior angle is (80, 90) degrees; the bridge to hole 1
+    (10 degrees) lies in the angle (0, 80) of the visit at position 5, which [attach_index] chooses.  Side conditions hold, 14
+    vertices, closes to the net area. *)
+Definition rg_square10 := rg_mk [mkV3 0 0 0; mkV3 10 0 0; mkV3 10 10 0; mkV3 0 10 0]%float.
+Definition rg_tri80 := rg_mk [mkV3 0.35 1.97 0; mkV3 0.6 2.15 0; mkV3 0.3 2.3 0]%float.
+Definition rg_tri10 := rg_mk [mkV3 2.36 0.42 0; mkV3 2.6 0.4 0; mkV3 2.5 0.65 0]%float.
+Definition rg_poly2 : res (Poly float) := do P0 <- poly_new rg_square10; do P1 <- poly_cut_hole P0 rg_tri80; poly_cut_hole P1 rg_tri10.
+Example C12_region_visit_differs :
+  match rg_poly2 with
+  | Ok P => closed_loop_clean false P = true /\ closed_loop_hits P = true /\ closed_loop_wf P = true /\
+            option_map (map (fun s => (ms_me0 s, ms_me s, ms_ml s, ms_id s))) (closed_loop_trace P) = Some [(0, 0, 0, 0); (0, 5, 1, 0)] /\
             match poly_get_closed_loop P with
             | Ok L => llen L = 14 /\ snd (loop_close L) = Ok tt /\
                       PrimFloat.ltb (PrimFloat.abs (larea (fst (loop_close L)) - parea P)) 1e-12 = true
